@@ -4187,7 +4187,9 @@ class State:
                 max_bet_index = max(
                     self.player_indices,
                     key=lambda i: (
-                        (self.bets[i] * sign(blinds_or_straddles[i]), i)
+                        self.bets[i] * sign(blinds_or_straddles[i]),
+                        blinds_or_straddles[i] if not self.street_index else 0,
+                        i,
                     ),
                 )
                 self.opener_index = (max_bet_index + 1) % self.player_count
